@@ -117,6 +117,65 @@ def reader(name, cfg, storage, r, stop, errq):
         errq.put(f"reader {r}: {type(e).__name__}: {e}")
 
 
+def opened_before_fork():
+    """the storage is opened and used in the parent, then a child is forked that inherits it; parent and child go on storing in
+    strict alternation, and everything is read back by both"""
+    from windpyutils.parallel.storage import TextFileStorage
+    ctx = multiprocessing.get_context("fork")
+    d = tempfile.mkdtemp(prefix="c14fork_", dir=os.environ.get("VERIF_SCRATCH") or None)
+    problems = []
+    try:
+        st = TextFileStorage(d)
+        st.open()
+        texts = {g: f"{'parent' if g % 2 == 0 else 'child'} text {g} " + "é" * (g * 3) for g in range(9)}
+        st[0] = texts[0]
+        to_child, to_parent = ctx.Queue(), ctx.Queue()
+
+        def child():
+            try:
+                for g in (1, 3, 5, 7):
+                    to_child.get(timeout=20)
+                    st[g] = texts[g]
+                    to_parent.put("stored")
+                to_child.get(timeout=20)
+                bad = [g for g in range(9) if st[g] != texts[g]]
+                to_parent.put(("read", bad))
+            except BaseException as e:  # noqa
+                to_parent.put(("error", f"{type(e).__name__}: {e}"))
+
+        p = ctx.Process(target=child)
+        p.start()
+        for g in (2, 4, 6, 8):
+            to_child.put("go")
+            r = to_parent.get(timeout=20)
+            if r != "stored":
+                problems.append(f"the child: {r}"); break
+            st[g] = texts[g]
+        if not problems:
+            to_child.put("read")
+            r = to_parent.get(timeout=20)
+            if r != ("read", []):
+                problems.append(f"the child reads back wrongly: {r}")
+            for g in range(9):
+                try:
+                    if st[g] != texts[g]:
+                        problems.append(f"storage[{g}] in the parent returns {st[g][:40]!r}, stored was {texts[g][:40]!r}")
+                except IndexError:
+                    problems.append(f"storage[{g}] in the parent raises IndexError")
+            if len(st) != 9 or list(st) != [texts[g] for g in range(9)]:
+                problems.append(f"len {len(st)}, iteration {[t[:12] for t in st]}")
+        p.join(10)
+        if p.is_alive():
+            p.kill()
+        st.close()
+    finally:
+        shutil.rmtree(d, ignore_errors=True)
+    for p_ in problems[:4]:
+        print("WRONG opened_before_fork:", p_)
+    print("DONE" if not problems else "FAILED")
+    return 0 if not problems else 1
+
+
 def seq_model():
     """single-process scripts (stores that succeed, stores whose write raises, second stores, reads, len, is_contiguous, iteration,
     flush) on the real storage beside the sequential model `Model/StorageSeq.lean` (driver machine `storageseq`)"""
@@ -193,6 +252,8 @@ def seq_model():
 def main(name):
     if name == "seq_model":
         return seq_model()
+    if name == "opened_before_fork":
+        return opened_before_fork()
     if name == "ascii_locale" and os.environ.get("C14_ASCII_CHILD") != "1":
         import subprocess
         env = dict(os.environ, LC_ALL="C", LANG="C", PYTHONUTF8="0", PYTHONCOERCECLOCALE="0", C14_ASCII_CHILD="1",
